@@ -40,7 +40,16 @@ Shapes ==
     \cup { Shape(<<>>, TRUE, ps, nf, ms, order) : ps \in ParentChoices(FALSE), nf \in 0..2, ms \in MethodSets, order \in {"fm", "mf"} }
 WellFormedShape(c) == \A j \in 1..Len(c.parents) : \A a \in 1..Len(c.parents[j].args) :
                           c.parents[j].args[a].k = "var" => Len(c.args) >= 1
-Cases == { [prop |-> "C17", kind |-> "class-shape", ctx |-> <<>>, hoist |-> FALSE, prog |-> Prog(<<Base1, Base2>> \o TopFuns \o <<c>>)] : c \in {x \in Shapes : WellFormedShape(x)} }
+\* every operator, in its symbol form and under its dunder name, alone and paired with its neighbour (members keyed by emitted name)
+SymOps == {"+", "-", "*", "/", "//", "mod", "^", "=", "!=", "<", "<=", ">", ">="}
+DunderNames == {"__add__", "__sub__", "__mul__", "__truediv__", "__floordiv__", "__mod__", "__pow__", "__eq__", "__ne__", "__lt__", "__le__", "__gt__", "__ge__",
+                "__str__", "__len__", "__contains__", "__getitem__", "__iter__", "__next__", "__bool__", "__neg__", "__hash__"}
+OpM(n) == Method(n, TRUE, <<Param("other", "Int", Absent)>>, "Int", <<>>, <<Expr(I(1))>>)
+OpNames == (SymOps \ {"<="}) \cup DunderNames          \* ("def <=" is not expressible in the symbol form today)
+OpClasses == { Class("K", <<>>, <<>>, <<>>, <<OpM(n)>>) : n \in OpNames }
+             \cup { Class("K", <<>>, <<>>, <<>>, <<OpM(a), OpM(b)>>) : a \in {"<", "__lt__", ">", "__gt__", "=", "+"}, b \in {"__le__", "__ge__", "__ne__", "__eq__", "-"} }
+OpCases == { [prop |-> "C17", kind |-> "operator-names", ctx |-> <<>>, hoist |-> FALSE, prog |-> Prog(<<c>>)] : c \in OpClasses }
+Cases == OpCases \cup { [prop |-> "C17", kind |-> "class-shape", ctx |-> <<>>, hoist |-> FALSE, prog |-> Prog(<<Base1, Base2>> \o TopFuns \o <<c>>)] : c \in {x \in Shapes : WellFormedShape(x)} }
 VARIABLE c
 Init == Part = "shapes" /\ c \in Cases
 Next == UNCHANGED c
